@@ -63,12 +63,26 @@ impl VarFile {
     }
     //
     #[inline]
+    #[cfg_attr(feature = "verif_hooks", allow(unreachable_code))]
     pub fn sync_all(&mut self) -> Result<()> {
+        #[cfg(feature = "verif_hooks")]
+        return crate::verif_hooks::io_result(
+            self.buf_file.name(),
+            crate::verif_hooks::IoKind::SyncAll,
+            self.buf_file.sync_all(),
+        );
         self.buf_file.sync_all()
     }
     //
     #[inline]
+    #[cfg_attr(feature = "verif_hooks", allow(unreachable_code))]
     pub fn sync_data(&mut self) -> Result<()> {
+        #[cfg(feature = "verif_hooks")]
+        return crate::verif_hooks::io_result(
+            self.buf_file.name(),
+            crate::verif_hooks::IoKind::SyncData,
+            self.buf_file.sync_data(),
+        );
         self.buf_file.sync_data()
     }
     //
@@ -89,6 +103,8 @@ impl VarFile {
     //
     #[inline]
     pub fn seek_from_start<T: PartialEq + Copy>(&mut self, offset: Offset<T>) -> Result<Offset<T>> {
+        #[cfg(feature = "verif_hooks")]
+        crate::verif_hooks::tick();
         let pos = self
             .seek(SeekFrom::Start(offset.into()))
             .map(Offset::<T>::new)?;
@@ -215,7 +231,14 @@ impl Write for VarFile {
         self.buf_file.write(buf)
     }
     #[inline]
+    #[cfg_attr(feature = "verif_hooks", allow(unreachable_code))]
     fn flush(&mut self) -> Result<()> {
+        #[cfg(feature = "verif_hooks")]
+        return crate::verif_hooks::io_result(
+            self.buf_file.name(),
+            crate::verif_hooks::IoKind::Flush,
+            self.buf_file.flush(),
+        );
         self.buf_file.flush()
     }
 }
@@ -230,6 +253,8 @@ impl Seek for VarFile {
 impl rabuf::SmallRead for VarFile {
     #[inline]
     fn read_u8(&mut self) -> Result<u8> {
+        #[cfg(feature = "verif_hooks")]
+        crate::verif_hooks::tick();
         self.buf_file.read_u8()
     }
     #[inline]
@@ -242,6 +267,8 @@ impl rabuf::SmallRead for VarFile {
     }
     #[inline]
     fn read_u64_le(&mut self) -> Result<u64> {
+        #[cfg(feature = "verif_hooks")]
+        crate::verif_hooks::tick();
         self.buf_file.read_u64_le()
     }
     #[inline]
